@@ -482,7 +482,7 @@ class Func:
         work = list(tails)
         while work:
             b = work.pop()
-            if b in body:
+            if b in body or b not in fwd:
                 continue
             body.add(b)
             for p, l in preds.get(b, ()):
